@@ -1,28 +1,9 @@
 //! vcheck <Cxx> <quick|thorough>      run the check for one property
 //! vcheck <Cxx> --replay <file>       evaluate exactly one saved case (strict: known findings are not suppressed)
 use serde_json::Value;
+use vcheck::*;
 use vcore::ev::{quiet_panics, Ctx, Tier};
 
-mod c01;
-mod c02;
-mod c03;
-mod c04;
-mod c05;
-mod c06;
-mod c07;
-mod c08;
-mod c09;
-mod c10;
-mod c11;
-mod c12;
-mod c13;
-mod c14;
-mod c15;
-mod c16;
-mod c17;
-mod c18;
-mod driver;
-mod frames;
 
 type RunFn = fn(&Ctx);
 type ReplayFn = fn(&Ctx, &Value);
